@@ -217,3 +217,24 @@ def MetaState.empty (g : GridDef α) (useGrids : Bool) : MetaState α :=
     gridG := if useGrids then List.replicate (nt * g.nx.length) 0.0 else [] }
 
 end Cv
+
+/-! ### the state file (`write_state_data` / `read_state_data`) -/
+namespace Cv
+variable {α : Type} [Sc α]
+
+/-- `write_state_data` first projects the hills not yet tabulated onto the live grids ("a very good time to project
+    hills"): this changes the running bias as well -/
+def metaFlush (p : MetaParams α) (s : MetaState α) : MetaState α :=
+  if p.useGrids then
+    -- (`project_hills` also discards the explicit hills unless keepHills is set)
+    { projectHills p s (newHills s) with nNew := 0, hills := if p.keepHills then s.hills else [] }
+  else s
+
+/-- what a fresh instance holds after reading the state written from `s`: the grids, and as explicit hills all of
+    them (no grids, or keepHills) or those near the grid boundaries -/
+def metaLoaded (p : MetaParams α) (s : MetaState α) : MetaState α :=
+  let f := metaFlush p s
+  let hs := if !p.useGrids || p.keepHills then f.hills else f.offGrid
+  { f with hills := hs, nNew := if p.useGrids then 0 else hs.length }
+
+end Cv
